@@ -258,6 +258,12 @@ var c06Producers = []c06Producer{
 	}},
 	{"string + multi-byte string", false, func(L int) string { return fmt.Sprintf("a := %q; out := a + \"日本\"", rep("a", L-6)) }},
 	{"string(char)+", false, func(L int) string { return fmt.Sprintf("out := %q + string('語')", rep("a", L-3)) }},
+	{"map key from a non-string index", false, func(L int) string {
+		return fmt.Sprintf("m := {}; m[[%q]] = 1; out := \"\"; for k, v in m { out = k }", rep("a", L-4))
+	}},
+	{"map key from an int-array index", false, func(L int) string {
+		return fmt.Sprintf("m := {}; m[[%s7]] = 1; out := \"\"; for k, v in m { out = k + %q }", rep("7, ", (L-3)/3), rep("z", (L-3)%3))
+	}},
 	{"string + bool", false, func(L int) string { return fmt.Sprintf("out := %q + true", rep("a", L-4)) }},
 	{"string + array", false, func(L int) string { return fmt.Sprintf("out := %q + [1, 2]", rep("a", L-6)) }},
 	{"string + bytes", false, func(L int) string { return fmt.Sprintf("out := %q + bytes(\"xyz\")", rep("a", L-3)) }},
